@@ -1,0 +1,59 @@
+//go:build verif
+
+// Contracts for contract-based deductive verification (govc, /verif).
+// This file contains comments only; it adds no code to the package.
+
+package encryption
+
+//@ # ---- assumed: the hash function (keccak256: 32-byte digests) and the random padding ----------
+//@ func Encryption.hashFunc
+//@   trusted
+//@   ensures result != nil
+//@   assigns nothing
+//@ extern func (hash.Hash).Write
+//@   assigns nothing
+//@ extern func (hash.Hash).Sum
+//@   ensures len(result) == 32 && fresh(result)
+//@   assigns nothing
+//@ extern func (hash.Hash).Reset
+//@   assigns nothing
+//@ func pad
+//@   trusted
+//@   assigns elems(b)
+
+//@ # well-formed cipher object: the block length is the key length (32 for chunk encryption)
+//@ spec func encOK(e *Encryption) bool = e.hashFunc != nil && e.keyLen == len(e.key) && 1 <= e.keyLen && e.keyLen <= 32 && e.padding >= 0 && e.padding <= 1073741824
+
+//@ func min
+//@   inline
+
+//@ func (*Encryption).Transcrypt
+//@   property C08
+//@   requires encOK(e) && len(in) <= len(out) && len(in) <= 32
+//@   requires ref(in) != ref(out) || len(in) == 0
+//@   ensures result == nil ==> len(out) == old(len(out))
+//@   assigns elems(out)
+//@   loop 1 invariant 0 <= j && j <= inLength && inLength == len(in) && len(segmentKey) == 32
+//@   loop 1 assigns elems(out)
+
+//@ func (*Encryption).transform
+//@   property C08
+//@   requires encOK(e) && len(in) <= len(out)
+//@   requires ref(in) != ref(out) || len(in) == 0
+//@   assigns elems(out), e.index
+//@   loop 1 invariant 0 <= i && inLength == len(in) && (i < inLength || i - e.keyLen < inLength) && i % e.keyLen == 0
+//@   loop 1 assigns elems(out), e.index
+
+//@ func (*Encryption).Encrypt
+//@   property C08
+//@   requires encOK(e)
+//@   ensures too-long-for-the-padding: e.padding > 0 && len(data) > e.padding ==> result1 != nil
+//@   ensures padded-to-the-configured-length: result1 == nil && e.padding > 0 ==> len(result0) == e.padding
+//@   ensures unpadded-keeps-the-length: result1 == nil && e.padding == 0 ==> len(result0) == len(data)
+
+//@ func (*Encryption).Decrypt
+//@   property C08
+//@   requires encOK(e)
+//@   ensures length-kept: result1 == nil ==> len(result0) == len(data) && (e.padding > 0 ==> len(data) == e.padding)
+//@   ensures wrong-length-rejected: e.padding > 0 && len(data) != e.padding ==> result1 != nil
+//@   ensures failed-returns-nothing: result1 != nil ==> len(result0) == 0
